@@ -341,8 +341,25 @@ func c19Worker(sh *explore.Shard) {
 	if e1 != "" || e2 != "" {
 		panic("baseline JSON invalid: " + e1 + e2)
 	}
+	// ROOT-only runs (no reference is walked, the ROOT spelling is the only name
+	// the objects have): their own plain-spelling baseline
+	noneRG, _ := realGrouper(nil, nil, true)
+	rres := inproc.Scan(modelgit.NewEnv(base.Repo, &modelgit.Plan{}), noneRG, [][2]string{{"main", string(base.Repo.Refs[0].ID)}}, sizes.NameStyleFull, nil)
+	rj1, _ := json.MarshalIndent(rres.HS, "", "    ")
+	rj2, _ := rres.HS.JSON(noneRG.Groups(), 0, sizes.NameStyleFull)
+	rk1, e1 := StrictJSON(rj1)
+	rk2, e2 := StrictJSON(rj2)
+	if e1 != "" || e2 != "" || rres.Err != nil {
+		panic("ROOT-only baseline invalid: " + e1 + e2 + fmt.Sprint(rres.Err))
+	}
+	allK1, allK2 := bk1, bk2
+	rootOnly := false
 	one := func(sc *gen.Scenario, cfg []refmodel.ConfigEntry, rootName string) {
 		sh.C.Evals++
+		bk1, bk2 := allK1, allK2
+		if rootOnly {
+			bk1, bk2 = rk1, rk2
+		}
 		mk := func(class, msg string) {
 			sh.C.Violate(explore.Violation{Property: "C19", Class: class, Msg: msg + " [" + sc.Desc + "]", Case: caseJSON(sh.Index(), map[string]any{"desc": sc.Desc})})
 		}
@@ -364,6 +381,9 @@ func c19Worker(sh *explore.Shard) {
 		var explicit [][2]string
 		if rootName != "" {
 			explicit = [][2]string{{rootName, string(sc.Repo.Refs[0].ID)}}
+		}
+		if rootOnly {
+			rg = noneRG
 		}
 		for _, style := range []sizes.NameStyle{sizes.NameStyleFull, sizes.NameStyleHash, sizes.NameStyleNone} {
 			env := modelgit.NewEnv(sc.Repo, &modelgit.Plan{})
@@ -540,6 +560,25 @@ func c19Worker(sh *explore.Shard) {
 		// only the spelling matters for the report)
 		one(sc, nil, "main:"+n)
 	}
+	// (5) ROOT as the only root (no reference walked), in every spelling of a
+	// revision: the key set must not depend on how the ROOT is spelled
+	{
+		sc := c19Scenario("dir", "file", "main")
+		c0 := string(sc.Repo.Refs[0].ID)
+		// (the short name "main" is ambiguous here, refs/tags/main exists as well and
+		// git prefers it: the branch is spelled heads/main)
+		spellings := []string{c0, c0[:7], c0[:12], "HEAD", "@", "heads/main", "heads/main~0", "heads/main^{commit}", "refs/heads/main", "refs/heads/main^0", "main^{}", "main^0", "tags/main^{commit}", "refs/tags/main^{}"}
+		for _, sp := range spellings {
+			idx++
+			if !sh.Mine(idx) || sh.Expired() {
+				continue
+			}
+			sc.Desc = fmt.Sprintf("ROOT %q as the only root", sp)
+			rootOnly = true
+			one(sc, nil, sp)
+			rootOnly = false
+		}
+	}
 	// (4) refgroup symbols and display names
 	for _, n := range names {
 		if strings.ContainsAny(n, "\n\x00") || len(n) > 4096 {
@@ -575,6 +614,6 @@ func plainGrouper() sizes.RefGrouper {
 
 func init() {
 	Registry["C19"] = &Check{Level: "exploration", Worker: c19Worker, QuickBudget: 70 * time.Second, ThoroughBudget: 10 * time.Minute,
-		Rule:        "a special-byte alphabet (space, double and single quote, backslash, TAB, LF, CR, 0x01, DEL, invalid UTF-8, multi-byte UTF-8, ':', leading '-', '[1]', printf verbs, braces, U+2028) in four positions (alone, start, middle, end) and long names (255, 256, 4096, 65494, 65495; 70000 in thorough) placed in: directory names, file names (all single placements and a product at reduced alphabet), reference names (only those git check-ref-format accepts; the harness rule is validated against real git on the whole alphabet in every run), ROOT spellings, refgroup symbols and display names; scanned in-process in the three name styles. JSON v1 and v2 must pass an independent strict RFC 8259 validator and have the plain-name key set (per-refgroup members excepted); the table must equal row by row (layout ignored) the text constructed from the scan's own citations (numbered 1..k by first citation, equal texts sharing a number, every footnote cited); descriptions are judged as in C08; for every third tree-entry placement the real binary (model git on PATH) must print byte-for-byte the same JSON v1, JSON v2 and table as the in-process rendering of the same scan. non-trivial = every placement",
+		Rule:        "a special-byte alphabet (space, double and single quote, backslash, TAB, LF, CR, 0x01, DEL, invalid UTF-8, multi-byte UTF-8, ':', leading '-', '[1]', printf verbs, braces, U+2028) in four positions (alone, start, middle, end) and long names (255, 256, 4096, 65494, 65495; 70000 in thorough) placed in: directory names, file names (all single placements and a product at reduced alphabet), reference names (only those git check-ref-format accepts; the harness rule is validated against real git on the whole alphabet in every run), ROOT spellings (also as the only root with no reference walked: full and abbreviated object ids, HEAD, @, ~ ^{} ^0 forms), refgroup symbols and display names; scanned in-process in the three name styles. JSON v1 and v2 must pass an independent strict RFC 8259 validator and have the plain-name key set (per-refgroup members excepted); the table must equal row by row (layout ignored) the text constructed from the scan's own citations (numbered 1..k by first citation, equal texts sharing a number, every footnote cited); descriptions are judged as in C08; for every third tree-entry placement the real binary (model git on PATH) must print byte-for-byte the same JSON v1, JSON v2 and table as the in-process rendering of the same scan. non-trivial = every placement",
 		Assumptions: []string{"reference names are limited to what git itself can hold", "footnote texts are taken from the scan result (Path.String()) and the table is compared with the constructive expected text"}}
 }
